@@ -102,7 +102,10 @@ def _fill(rng, pts, allow_gradient=True):
     r = rng.random()
     if r < 0.55 or not allow_gradient:
         # sometimes the fill colour carries its own alpha (#RRGGBBAA)
-        return Solid(_rgb(rng), rng.choice([1.0, 1.0, 1.0, 128 / 255, 64 / 255]))
+        s_ = Solid(_rgb(rng), rng.choice([1.0, 1.0, 1.0, 128 / 255, 64 / 255]))
+        if s_.rgb == (0, 0, 0) and s_.alpha == 1.0 and rng.random() < 0.5:
+            s_.current = True
+        return s_
     bx, by, bw, bh = _bbox(pts)
     units = rng.choice(["userSpaceOnUse", "objectBoundingBox"])
     spread = rng.choice(["pad", "pad", "reflect", "repeat"])
@@ -179,6 +182,12 @@ def gen_glyphset(rng, n_glyphs=None, gradients=True, groups=True, reuse=True):
             items.append(Shape(pts, fill, rng.choice([1.0, 1.0, 0.5, 0.25])))
         if groups and len(items) >= 2 and rng.random() < 0.3:
             items = [Group(0.5, items[:2])] + items[2:]
+            if len(items) >= 2 and rng.random() < 0.35:
+                # an opacity group inside an opacity group (different opacities), followed by
+                # a sibling of the inner group that is painted after it
+                inner = Group(0.25, [Shape(_poly(rng, vb), Solid(_rgb(rng)), 1.0), Shape(_poly(rng, vb), Solid(_rgb(rng)), 1.0)])
+                pool.extend(sh.pts for sh in inner.shapes)
+                items[0] = Group(0.5, [items[0].shapes[0], inner, items[0].shapes[1]])
         glyphs.append(GlyphSpec(vb, items, (0xE000 + gi,)))
     return glyphs
 
@@ -204,6 +213,9 @@ def svg_text(g):
         f = s.fill
         if isinstance(f, Solid):
             col = _hex(f.rgb) + ("" if f.alpha == 1.0 else "%02X" % round(f.alpha * 255))
+            if getattr(f, "current", False) and f.rgb == (0, 0, 0) and f.alpha == 1.0 and getattr(f, "index", None) is None:
+                # the text foreground colour (evaluated as black on both sides)
+                col = "currentColor"
             if getattr(f, "index", None) is not None:
                 col = f"var(--color{f.index}, {col})"
             attrs += f' fill="{col}"'
@@ -229,11 +241,13 @@ def svg_text(g):
             attrs += f' opacity="{_n(s.opacity)}"'
         return f"<path {attrs}/>"
 
-    for it in g.viewbox and g.items:
+    def item_xml(it):
         if isinstance(it, Group):
-            body.append(f'<g opacity="{_n(it.opacity)}">' + "".join(shape_xml(s) for s in it.shapes) + "</g>")
-        else:
-            body.append(shape_xml(it))
+            return f'<g opacity="{_n(it.opacity)}">' + "".join(item_xml(s) for s in it.shapes) + "</g>"
+        return shape_xml(it)
+
+    for it in g.viewbox and g.items:
+        body.append(item_xml(it))
     vb = " ".join(_n(v) for v in g.viewbox)
     return f'<svg xmlns="http://www.w3.org/2000/svg" viewBox="{vb}"><defs>{"".join(defs)}</defs>{"".join(body)}</svg>'
 
@@ -401,18 +415,14 @@ def spec_fill_color(shape, p):
     return (c[0], c[1], c[2], c[3] * shape.opacity)
 
 
-def spec_color(glyph, p):
-    """None = undecidable sample (degenerate gradient)"""
+def _items_color(items, p):
+    """SVG painter's model over a list of shapes and (possibly nested) opacity groups"""
     dst = CLEAR
-    for it in glyph.items:
+    for it in items:
         if isinstance(it, Group):
-            layer = CLEAR
-            for s in it.shapes:
-                if inside(s.pts, p):
-                    c = spec_fill_color(s, p)
-                    if c is None:
-                        return None
-                    layer = over(layer, c)
+            layer = _items_color(it.shapes, p)
+            if layer is None:
+                return None
             dst = over(dst, layer[:3] + (layer[3] * it.opacity,))
         elif inside(it.pts, p):
             c = spec_fill_color(it, p)
@@ -422,12 +432,21 @@ def spec_color(glyph, p):
     return dst
 
 
-def all_shapes(glyph):
-    for it in glyph.items:
+def spec_color(glyph, p):
+    """None = undecidable sample (degenerate gradient)"""
+    return _items_color(glyph.items, p)
+
+
+def _shapes_of(items):
+    for it in items:
         if isinstance(it, Group):
-            yield from it.shapes
+            yield from _shapes_of(it.shapes)
         else:
             yield it
+
+
+def all_shapes(glyph):
+    yield from _shapes_of(glyph.items)
 
 
 def placement(vb, ascender, descender, advance, user=ID, otsvg=False):
